@@ -59,7 +59,7 @@ def pad(arrs, value):
     return out
 
 
-def scorer_entry(n, sizes, means, vars_, d, max_chunk, order, rng):
+def scorer_entry(n, sizes, means, vars_, d, max_chunk, order, rng, max_triples=100000):
     """GaussianDBALScorer.score through real plate views and stub samples"""
     rows_pl = [p for p, e in enumerate(sizes) for _ in range(e)]
     N = len(rows_pl)
@@ -69,7 +69,7 @@ def scorer_entry(n, sizes, means, vars_, d, max_chunk, order, rng):
     for th in range(n):
         h.add_theta(ArrTheta(np.concatenate([means[p][th] for p in range(len(sizes))]), np.concatenate([vars_[p][th] for p in range(len(sizes))])))
     plates = {p: scr.get_plate(p) for p in order}
-    st, r = outcome(G.GaussianDBALScorer(max_chunk=max_chunk, max_triples=100000).score, plates, Dense(d), h, rng, False)
+    st, r = outcome(G.GaussianDBALScorer(max_chunk=max_chunk, max_triples=max_triples).score, plates, Dense(d), h, rng, False)
     return st, ([float(r[p]) for p in range(len(sizes))] if st == "ok" and set(r.keys()) == set(range(len(sizes))) else r)
 
 
@@ -94,8 +94,9 @@ def run(ctx):
         n = rnd.randint(3, 7 if ctx.quick else 9)
         structs.append((n, [rnd.randint(1, 6) for _ in range(rnd.randint(1, 5))], False))
     structs += [(3, [60, 60], True), (3, [1, 60, 40], True), (4, [50, 1, 50], True)]
+    structs += [(33, [1, 2], False)]           # C(33,3) = 5456 triples: more than the default budget of 5000, all enumerated when the budget says so
     need = sorted({(n, e) for n, sizes, _ in structs for e in sizes})
-    r = ctx.tlc("DBAL", tlc.cfg(constants={"MaxN": 3, "MaxE": 1, "Export": True, "UseCases": True}, invariants=inv),
+    r = ctx.tlc("DBAL", tlc.cfg(constants={"MaxN": 3, "MaxE": 1, "Export": True, "UseCases": True}, invariants=["AllTriplesOnce", "ExportCase"]),
                 note="terms for %d (n, plate size) pairs" % len(need), files={"cases.json": json.dumps([{"n": n, "e": e} for n, e in need])},
                 env={"CASES_FILE": "cases.json"}, workers=4, heap="12g")
     if r.violation:
@@ -132,7 +133,8 @@ def run(ctx):
                 order = list(range(P))
                 rnd.shuffle(order)
                 mc = rnd.choice([1, 2, 3, 50])
-                entries["scorer(max_chunk=%d,order=%s)" % (mc, order)] = scorer_entry(n, sizes, means, vars_, d, mc, order, gen)
+                mt = 100000 if n < 30 else 6000
+                entries["scorer(max_chunk=%d,max_triples=%d,order=%s)" % (mc, mt, order)] = scorer_entry(n, sizes, means, vars_, d, mc, order, gen, max_triples=mt)
             # each plate alone
             for p in range(P):
                 st, s = outcome(G.dbal_fast_gaussian_scoring_heteroscedastic, [means[p]], [vars_[p]], d, gen, 10 ** 6)
